@@ -114,6 +114,10 @@ func cmdCheck(args []string) int {
 			return 2
 		}
 	}
+	known := loadKnown(filepath.Join(*verif, "known_findings.json"))
+	for _, kf := range known.Findings {
+		vc.KnownFailing[kf.Obligation] = kf.Property
+	}
 	keys := unitsFor(cs, *prop)
 	if len(keys) == 0 {
 		fmt.Fprintf(os.Stderr, "no function under contract carries a clause for %s\n", *prop)
@@ -164,10 +168,13 @@ func cmdCheck(args []string) int {
 		for _, n := range u.Inlined {
 			inlined[n] = true
 		}
+		// every obligation of every function in the cone is discharged: callers
+		// assume all clauses of a callee's contract, so all of them must hold
 		for _, o := range u.Obligs {
-			if o.Props == nil || hasProp(o.Props, *prop) {
-				all = append(all, o)
+			if owner, bad := vc.KnownFailing[o.Name]; bad && owner != *prop {
+				continue // a known finding of another property: not assumed anywhere, reported by its own check
 			}
+			all = append(all, o)
 		}
 		// contracts of callees that were used modularly must be proved in this run too
 		for _, c := range u.Callees {
@@ -177,8 +184,11 @@ func cmdCheck(args []string) int {
 		}
 	}
 	genS := time.Since(t0).Seconds() - loadS
-	res := vc.Solve(all, vc.SolveOpts{TimeoutS: timeout, Seed: seed, OutDir: outDir, Thorough: *tier == "thorough"})
-	known := loadKnown(filepath.Join(*verif, "known_findings.json"))
+	knownSet := map[string]bool{}
+	for k := range vc.KnownFailing {
+		knownSet[k] = true
+	}
+	res := vc.Solve(all, vc.SolveOpts{TimeoutS: timeout, Seed: seed, OutDir: outDir, Thorough: *tier == "thorough", Known: knownSet})
 	isKnown := func(name string) *knownFinding {
 		for i := range known.Findings {
 			if known.Findings[i].Property == *prop && known.Findings[i].Obligation == name {
@@ -212,13 +222,14 @@ func cmdCheck(args []string) int {
 			if slowest == nil || r.Secs > slowest.Secs {
 				slowest = r
 			}
-			if len(samples) < 4 && (r.O.Kind == "post" || r.O.Kind == "frame" || r.O.Kind == "inv-step" || len(samples) < 2) {
+			if (len(samples) < 5 && hasProp(r.O.Props, *prop) && (r.O.Kind == "post" || r.O.Kind == "inv-step")) || len(samples) < 1 {
 				samples = append(samples, map[string]interface{}{"obligation": r.O.Name, "kind": r.O.Kind, "clause": r.O.Text, "source": r.O.Pos,
 					"hypothesis": trunc(r.O.Hyp, 300), "goal": trunc(r.O.Goal, 600), "solver": r.Solver, "seconds": r.Secs, "smt_file": r.File})
 			}
 		default:
 			if kf := isKnown(r.O.Name); kf != nil {
 				nKnown++
+				nObl-- // reported as a known finding, not counted among the obligations claimed
 				fmt.Printf("KNOWN-FINDING: property=%s %s: %s\n", *prop, r.O.Name, kf.What)
 				continue
 			}
